@@ -20,6 +20,8 @@ use std::path::Path;
 mod pool;
 #[path = "c19/worker.rs"]
 mod worker;
+#[path = "c19/concrete.rs"]
+mod concrete;
 use pool::{Cfg, RealResp, WorkerPool};
 
 const POOL: [&str; 10] = [
@@ -396,6 +398,8 @@ fn canon(r: &RealResp) -> Sexp {
         RealResp::Res(t, h) => Sexp::call("result-real", vec![Sexp::str(t.as_str()), Sexp::str(h.as_str())]),
         RealResp::Trap { .. } | RealResp::Dead => Sexp::call("trap", vec![]),
         RealResp::Bad(t) => Sexp::call("bad", vec![Sexp::str(t.as_str())]),
+        // answers of the ops of stream `emit-concrete` (c19/concrete.rs); never produced for the histories of this file
+        RealResp::Cfg(_) | RealResp::JsText(_) | RealResp::ResText(_) => Sexp::call("bad", vec![Sexp::str(r.to_json().to_string())]),
     }
 }
 
@@ -1055,6 +1059,17 @@ fn main() {
         let text = std::fs::read_to_string(file).expect("read replay file");
         let v: Value = serde_json::from_str(&text).expect("replay file is JSON");
         let case = v.get("case").cloned().unwrap_or(v.clone());
+        if case.get("concrete").is_some() {
+            match concrete::Case::from_json(&case) {
+                Some(c) => {
+                    let exe = std::env::current_exe().expect("current_exe");
+                    concrete::replay(&mut ctx.rep, &mut ctx.drv, &exe, &c);
+                }
+                None => ctx.rep.fail("K", "bad-replay-case", &format!("cannot read a concrete case from {file}"), case),
+            }
+            finish(ctx, &args, t0);
+            return;
+        }
         match case_from_json(&case) {
             Some(h) if h.iter().all(|o| match *o {
                 Op::I(p, s) | Op::L(_, p, s) => p < PATHS.len() && s < POOL.len(),
@@ -1086,6 +1101,13 @@ fn main() {
     let sample_rs = ctx.wp.run_histories(&sample_hs);
     for (h, r) in sample_hs.iter().zip(sample_rs) {
         ctx.rep.sample(json!({ "ops": hist_text(h), "real": r.iter().map(|x| x.to_json()).collect::<Vec<_>>() }));
+    }
+
+    // 1b. the concrete emitter model against the real emit_js (stream `emit-concrete:*`, c19/concrete.rs)
+    {
+        let exe = std::env::current_exe().expect("current_exe");
+        let mut crng = rng.fork();
+        concrete::run(&mut ctx.rep, &mut ctx.drv, &exe, &mut crng, thorough);
     }
 
     // 2. exhaustive
